@@ -111,6 +111,25 @@ MidMotif(G, i)   == Frac0(Mat3(G, i, 0, 1, 0), G.ki[i] * G.ko[i] - BilDeg(G, i))
 InMotif(G, i)    == Frac0(Mat3(G, i, 1, 0, 0), G.ki[i] * (G.ki[i] - 1))
 OutMotif(G, i)   == Frac0(Mat3(G, i, 0, 0, 1), G.ko[i] * (G.ko[i] - 1))
 
+\* ---- link-weighted variants (a link attribute W given as key) ----------------------------
+\* The harness uses weights that are perfect cubes, W[i][j] = R[i][j]^3 on links (0 elsewhere), with the
+\* cube roots R fixed by the node numbers, so that Fagiolo's W^[1/3] is an integer matrix.
+\* (roots 1 and 2 only: the bilateral strength sum W_ij W_ji must stay below 2^31 / 10^6)
+CubeRoot(dir, i, j) == IF dir = 1 THEN ((i + 2 * j + (i * j) \div 2) % 2) + 1 ELSE ((i * j + (i + j) \div 2) % 2) + 1
+RootMat(A, dir) == [i \in 1..Len(A) |-> [j \in 1..Len(A) |-> A[i][j] * CubeRoot(dir, i, j)]]
+CubeMat(R) == [i \in 1..Len(R) |-> [j \in 1..Len(R) |-> R[i][j] * R[i][j] * R[i][j]]]
+OutStrength(W, i) == SumN(LAMBDA j : W[i][j], 1, Len(W))
+InStrength(W, i) == SumN(LAMBDA j : W[j][i], 1, Len(W))
+BilStrength(W, i) == SumN(LAMBDA j : W[i][j] * W[j][i], 1, Len(W))
+\* Fagiolo (2007): the numerator uses W^[1/3], the denominator the BINARY degrees
+WMat3(R, i, f1, f2, f3) ==
+  SumN(LAMBDA j : SumN(LAMBDA l : (IF f1 = 0 THEN R[i][j] ELSE R[j][i]) * (IF f2 = 0 THEN R[j][l] ELSE R[l][j])
+                                  * (IF f3 = 0 THEN R[l][i] ELSE R[i][l]), 1, Len(R)), 1, Len(R))
+WCycleMotif(G, R, i) == Frac0(WMat3(R, i, 0, 0, 0), G.ki[i] * G.ko[i] - BilDeg(G, i))
+WMidMotif(G, R, i)   == Frac0(WMat3(R, i, 0, 1, 0), G.ki[i] * G.ko[i] - BilDeg(G, i))
+WInMotif(G, R, i)    == Frac0(WMat3(R, i, 1, 0, 0), G.ki[i] * (G.ki[i] - 1))
+WOutMotif(G, R, i)   == Frac0(WMat3(R, i, 0, 0, 1), G.ko[i] * (G.ko[i] - 1))
+
 \* cliques
 IsClique(G, C) == \A a \in C : \A b \in C : a = b \/ G.U[a][b] = 1
 KSub(T, k) == {C \in SUBSET T : Cardinality(C) = k}
